@@ -196,7 +196,11 @@ class Assembly:
         shim_txt = ["// environment models (see DESIGN.md 3.2)\n"]
         for s in spec.get("shims", []):
             with open(os.path.join(VERIF, "engine", "shims", s + ".rs")) as f:
-                shim_txt.append("// ---- shim: %s ----\n" % s + f.read() + "\n")
+                body = f.read()
+            for old, new in spec.get("shim_subst", {}).get(s, []):
+                assert old in body, "shim_subst: %r not in shim %s" % (old, s)
+                body = body.replace(old, new)
+            shim_txt.append("// ---- shim: %s ----\n" % s + body + "\n")
         with open(os.path.join(src_dir, "verif_shims.rs"), "w") as f:
             f.write("".join(shim_txt))
         # spec tables
